@@ -897,26 +897,32 @@ theorem raw_echo_reject_is_noop (d : Nat) (s : Topo) (r : RawOp) (h : (stepRawEc
   | none => rfl
   | some op => simp only [hd] at h ⊢; exact echo_reject_is_noop d s op h
 
-/-! ### 15. a delete that arrives as a tombstone (suspected defect, exhibited on the real code by the gated stream
-    `tombstone`, VERIF_C15_TOMBSTONE=prod; not part of the default differential runs) -/
+/-! ### 15. a delete that arrives as a tombstone (defect found by the gated exhibit of round 2, repaired by fc155e0;
+    the stream `tombstone` and the typed-object tombstones of the two-replica stream now run by default) -/
 
-/-- with the identity of `convertible` every representation the code can convert behaves like the plain event. -/
+/-- every representation the code can convert behaves like the plain event. -/
 theorem applyEvAs_convertible (reg : Bool) (shape : Nat) (s : Topo) (e : Ev) (h : convertible reg shape = true) :
     applyEvAs reg shape s e = applyEv s e := by simp [applyEvAs, h]
 
-/-- NewQuotaInformer asks for a TYPED informer, so a tombstone holds the typed object (shape 3): it is never converted,
-    whatever the scheme; an unstructured one (shape 2) needs the type in client-go's scheme (tie_event_object_conversion:
-    koord-manager does not register it). -/
-theorem tombstone_not_convertible : (∀ reg, convertible reg 3 = false) ∧ convertible false 2 = false ∧ convertible false 1 = false := by
-  decide
+/-- NewQuotaInformer asks for a TYPED informer, so a tombstone holds the typed object (shape 3): it is converted
+    whatever the scheme (FALSE before fc155e0); the unstructured forms need the type in client-go's scheme. -/
+theorem tombstone_typed_convertible :
+    (∀ reg, convertible reg 3 = true ∧ convertible reg 0 = true) ∧ convertible false 2 = false ∧ convertible false 1 = false ∧
+    (∀ reg, convertible reg 4 = false) := by decide
 
-/-- replica b misses the delete of parent 3 (the tombstone is dropped): it then ADMITS a child under the deleted parent,
-    which a replica that saw the delete rejects — "every parent exists" fails for the admitted objects. -/
-theorem tombstone_dropped_counterexample :
+/-- so a delete delivered as a typed-object tombstone has the effect of the plain delete event. -/
+theorem tombstone_typed_delivered (reg : Bool) (s : Topo) (e : Ev) : applyEvAs reg 3 s e = applyEv s e :=
+  applyEvAs_convertible reg 3 s e ((tombstone_typed_convertible.1 reg).1)
+
+/-- why it matters: a replica that LOSES the delete of parent 3 (an object the handler cannot convert, shape 4; before
+    fc155e0 also the typed-object tombstone) ADMITS a child under the deleted parent, which a replica that saw the
+    delete — plainly or as a typed-object tombstone — rejects: "every parent exists" fails for the admitted objects. -/
+theorem dropped_delete_counterexample :
     let b1 := onAdd init cxDept1                                   -- b learnt quota 3 from the informer
     let bSeen := applyEvAs false 0 b1 (.del cxDept1)               -- plain delete event
-    let bLost := applyEvAs false 3 b1 (.del cxDept1)               -- the same delete as a tombstone
-    (validAdd 1 bSeen cxTeam false).2 = false ∧ (validAdd 1 bLost cxTeam false).2 = true ∧
+    let bTomb := applyEvAs false 3 b1 (.del cxDept1)               -- the same delete as a typed-object tombstone
+    let bLost := applyEvAs false 4 b1 (.del cxDept1)               -- the delete in a form the handler drops
+    (validAdd 1 bSeen cxTeam false).2 = false ∧ bTomb = bSeen ∧ (validAdd 1 bLost cxTeam false).2 = true ∧
     (validAdd 1 bLost cxDept1 false).2 = false := by decide
 
 /-! ### 16. two reading notes decided on the unchanged tree (gated exhibits of the harness: VERIF_C15_ROOTPARENT=1,
